@@ -87,6 +87,30 @@ def run_trigger(ck, pid):
     hits = report_known(ck, pid, execs, "trigger execution")
     ck.part("trigger-executions", executions=len(execs), findings_seen=hits)
 
+def directed(proto, n, t, role, seed, gi=2, grp=(46327, 1103, 39443, 18015), tamper=(-1, -1), cut=None):
+    return {"cut_after": cut or [-1] * n, "gi": gi, "grp": list(grp), "n": n, "proto": proto, "rnd": True, "role": role,
+            "seed": seed, "t": t, "tamper": list(tamper), "trbc": min(t, (n - 1) // 3)}
+
+def run_directed(ck, pid, configs):
+    """explicit executions that every run repeats (deviations the random generator reaches only now and then)"""
+    exe = vlib.build_driver("drv_dkg", extra_src=["seam_rng.cc", "seam_clock.cc"])
+    d = os.path.join(OUT, pid); os.makedirs(d, exist_ok=True)
+    def rec(kc):
+        k, c = kc
+        tp = os.path.join(d, "trace-directed-%d.ndjson" % k)
+        rc, so, se, _ = vlib.run_driver(exe, ["one", json.dumps(c), tp], timeout=1500)
+        if rc != 0:
+            raise vlib.Infra("drv_dkg failed: %s %s" % (so[-300:], se[-300:]))
+        x = tracecheck.split_executions(tp); os.unlink(tp)
+        return x
+    with cf.ThreadPoolExecutor(max_workers=8) as ex:
+        execs = [x for part in ex.map(rec, enumerate(configs)) for x in part]
+    tracecheck.validate(ck, pid, "directed", "DKGTrace", trace_cfg(pid), execs,
+                        classify=lambda ev, r: "directed-" + classify(ev, r), chunks=4)
+    hits = report_known(ck, pid, execs, "directed execution")
+    ck.add_cases("directed", len(execs), [json.dumps([x[0]["proto"], x[0]["n"], x[0]["t"], x[0]["role"], x[0]["seed"]]) for x in execs])
+    ck.part("directed-executions", executions=len(execs), findings_seen=hits)
+
 def run_proto(ck, pid, proto, nexec, seed, maxn, chunks=8):
     exe = vlib.build_driver("drv_dkg", extra_src=["seam_rng.cc", "seam_clock.cc"])
     d = os.path.join(OUT, pid); os.makedirs(d, exist_ok=True)
